@@ -38,6 +38,19 @@ theorem C18_scan_exact (t : BTree) (h : WF t) (a b : Int) :
     (t.abs.dropWhile (fun i => decide (i.key < a))).takeWhile (fun i => decide (i.key ≤ b)) = t.abs.filter (inRange a b) :=
   scan_from_lower_bound_exact a b t.abs (abs_sorted_of_WF t h).1
 
+/-- Go's `sort.Search`, as transcribed, returns the least index satisfying a monotone predicate -/
+theorem C18_sort_search (f : Nat → Bool) (n : Nat) (hmono : ∀ a b, a ≤ b → b < n → f a = true → f b = true) :
+    sortSearch n f ≤ n ∧ (∀ x, x < sortSearch n f → f x = false) ∧ (∀ x, sortSearch n f ≤ x → x < n → f x = true) :=
+  sortSearch_spec f n hmono
+
+/-- inside one node with key-sorted occupied slots, the search step of `find` / `getIndexToInsertTo`
+    returns the lower bound of the probe key (first slot with key `≥ k`) -/
+theorem C18_node_search_lower_bound (nd : Node) (k : Int) (hc : nd.count ≤ nd.slots.size)
+    (hs : nd.items.Pairwise (fun a b => a.key ≤ b.key)) :
+    let i := sortSearch nd.count (fun i => decide ((nd.slot i).key ≥ k))
+    i ≤ nd.count ∧ (∀ x, x < i → (nd.slot x).key < k) ∧ (∀ x, i ≤ x → x < nd.count → k ≤ (nd.slot x).key) :=
+  node_search_lower_bound nd k hc hs
+
 /-- the range of a well-formed tree is itself key-sorted and live -/
 theorem C18_range_sorted (t : BTree) (h : WF t) (a b : Int) :
     Sorted (t.abs.filter (inRange a b)) ∧ ∀ x ∈ t.abs.filter (inRange a b), x.id ≠ 0 ∧ a ≤ x.key ∧ x.key ≤ b := by
